@@ -245,6 +245,14 @@ class TrS:
                 x, tx = self.expr(n.args[0])
                 if tx == 'str':      # re.compile("[abc]").search(x): a match object, of which only `is None` and `.start()` are used
                     return "(PyOps.searchClass %s %s)" % (lstr(self.consts[f.value.id][1]), x), 'optint'
+            if isinstance(f, ast.Attribute) and f.attr == 'sub' and isinstance(f.value, ast.Name) and len(n.args) == 2 and not n.keywords \
+                    and isinstance(n.args[0], ast.Constant) and isinstance(n.args[0].value, str) and isinstance(self.consts.get(f.value.id), tuple):
+                kind = self.consts[f.value.id]
+                x, tx = self.expr(n.args[1])
+                if tx == 'str' and kind[0] == 'charclass':          # re.compile("[abc]").sub(rep, x): every character of the class becomes rep
+                    return "(PyOps.subClass %s %s %s)" % (lstr(kind[1]), lstr(n.args[0].value), x), 'str'
+                if tx == 'str' and kind == ('several_blanks',) and n.args[0].value == " ":      # re.compile("  +").sub(" ", x)
+                    return "(PyOps.squeezeBlanks %s)" % x, 'str'
             if isinstance(f, ast.Attribute) and f.attr == 'start' and isinstance(f.value, ast.Name) and not n.args and not n.keywords \
                     and self.env.get(f.value.id) == 'matchpos':
                 return f.value.id, 'int'
@@ -302,6 +310,12 @@ class TrS:
                     e = "((%s).contains %s)" % (lstr(self.consts[r.id][1]), a)
                     return (e if isinstance(op, ast.In) else "(!%s)" % e), 'bool'
                 raise Untranslatable("membership of a non-character in a list of characters")
+            if isinstance(op, (ast.In, ast.NotIn)) and isinstance(r, ast.Name) and isinstance(self.consts.get(r.id), tuple) and self.consts[r.id][0] == 'strconstlist':
+                a, ta = self.expr(l)
+                if ta == 'str':        # x in ["a", "rdf:type"] for a module-level list of strings
+                    e = "(" + " || ".join("(%s == %s)" % (a, lstr(v)) for v in self.consts[r.id][1]) + ")"
+                    return (e if isinstance(op, ast.In) else "(!%s)" % e), 'bool'
+                raise Untranslatable("membership of a non-string in a list of strings")
             (a, ta), (b, tb) = self.expr(l), self.expr(r)
             if isinstance(op, (ast.Eq, ast.NotEq)) and ta == 'char' and isinstance(r, ast.Constant) and isinstance(r.value, str) and len(r.value) == 1:
                 e = "(%s == %s)" % (a, lchar(r.value))          # x[i] == "c": one-character strings are equal iff the characters are
@@ -491,6 +505,8 @@ class TrS:
                 return "pure (PyOps.Ctl.next %s)" % in_loop[1]
             if in_loop:
                 return "pure none"
+            if ret == 'optstr':
+                return "pure none"          # a function that falls off its end returns None
             if ret == 'int':
                 self.assumptions.add("a function used as an int that falls off its end returns None; the generated function raises TypeError there "
                                      "(what the first arithmetic use of the result does in the caller)")
@@ -584,6 +600,19 @@ class TrS:
             if "←" in inner or "throw" in inner or len(self.hoist) != n_h:
                 raise Untranslatable("try body that may raise after float()")
             return self.flush("match floatOf %s with\n  | some %s => (do\n  %s)\n  | none => (do\n  %s)" % (e, x, inner, self.block(tail, ret)))
+        if isinstance(s, ast.Try) and not in_loop and not tail and ret == 'bool' and not s.orelse and not s.finalbody and len(s.handlers) == 1 \
+                and isinstance(s.handlers[0].type, ast.Name) and s.handlers[0].type.id == 'ValueError' and len(s.handlers[0].body) == 1 \
+                and isinstance(s.handlers[0].body[0], ast.Return) and isinstance(s.handlers[0].body[0].value, ast.Constant) and s.handlers[0].body[0].value.value is False \
+                and len(s.body) == 2 and isinstance(s.body[0], ast.Expr) and isinstance(s.body[0].value, ast.Call) and isinstance(s.body[0].value.func, ast.Name) \
+                and s.body[0].value.func.id == 'float' and len(s.body[0].value.args) == 1 and isinstance(s.body[1], ast.Return) \
+                and isinstance(s.body[1].value, ast.Constant) and s.body[1].value.value is True:
+            # `try: float(e); return True / except ValueError: return False`: does float() accept e
+            e, t = self.expr(s.body[0].value.args[0])
+            if t != 'str':
+                raise Untranslatable("float() of a non-string")
+            self.uses_float = True
+            self.assumptions.add("float(tok) is the parameter floatOf: none = ValueError, some b = (the value % 1.0 == 0)")
+            return self.flush("pure ((floatOf %s).isSome)" % e)
         if isinstance(s, ast.Break) and is_while(in_loop):
             return "pure (PyOps.Ctl.brk %s)" % in_loop[1]
         if isinstance(s, ast.Continue) and is_while(in_loop):
